@@ -345,3 +345,49 @@ def deep_search(proto: Protocol, J, K, timeout_ms, tries=6):
         stats["unreachable"] += 1
         sol.add(z3.Or(*[v != val for v, val in pre]))  # block this candidate
     return None, {**stats, "time": time.time() - t0, "gave_up": True}
+
+
+def single_thread_broker(bm: BrokerModel):
+    """C13: with one worker thread the broker never reorders or splits the worker's queue:
+    split_and_push leaves queue and market untouched and wakes nobody; pop on a market holding one
+    batch hands out that whole batch."""
+    g = Market.fresh("#q")
+    L = z3.Int("L#q")
+    out = []
+    for i, sm in enumerate(bm.summarize("split_and_push", g, local_len=L)):
+        if sm.kind == "bound":
+            continue
+        untouched = z3.And(sm.local_post == L, sm.post.n == g.n, sm.post.open == g.open, sm.post.oc == g.oc, z3.BoolVal(not any(e[0].startswith("notify") for e in sm.events)), z3.BoolVal(sm.kind == "return"))
+        r, m = _valid(bm, z3.And(sm.guard, g.open, g.tc == 1, g.oc == 1, z3.Not(untouched)))
+        out.append({"obligation": f"single worker: split_and_push path {i} leaves the worker's queue and the market untouched", "result": str(r), **({"witness": str(m)} if m is not None else {})})
+    for i, sm in enumerate(bm.summarize("pop", g)):
+        if sm.kind == "bound":
+            continue
+        if sm.kind != "return":
+            r, m = _valid(bm, z3.And(sm.guard, g.open, g.tc == 1, g.oc == 1, g.n == 1))
+            out.append({"obligation": f"single worker: pop path {i} ({sm.kind}) is not taken when one batch is queued", "result": str(r), **({"witness": str(m)} if m is not None else {})})
+            continue
+        whole = z3.And(sm.ret_len == g.slots[0], sm.post.n == 0) if sm.ret_len is not None else z3.BoolVal(False)
+        r, m = _valid(bm, z3.And(sm.guard, g.open, g.tc == 1, g.oc == 1, g.n == 1, z3.Not(whole)))
+        out.append({"obligation": f"single worker: pop path {i} hands out the one queued batch whole", "result": str(r), **({"witness": str(m)} if m is not None else {})})
+    return out
+
+
+def bfs_order_induction():
+    """C13 composition step (z3, integers): a queue whose depths are sorted (front deepest) and span
+    at most two consecutive values keeps that shape when the back job (depth b) is taken and any
+    number of jobs of depth b + 1 are put at the front; the next job taken is not shallower."""
+    f, b, b2, k, f2 = z3.Ints("front back back_after pushed front_after")
+    inv = z3.And(b >= 1, f >= b, f <= b + 1)
+    rest_nonempty = z3.Bool("rest_nonempty")
+    # after pop_back: the remaining queue is empty, or its back depth b2 lies within [b, f]
+    step = z3.And(k >= 0, z3.Implies(rest_nonempty, z3.And(b2 >= b, b2 <= f)),
+                  # pushing depth b+1 at the front keeps the order only if b+1 >= the old front
+                  z3.If(k > 0, f2 == b + 1, f2 == f),
+                  z3.Implies(z3.And(z3.Not(rest_nonempty), k > 0), b2 == b + 1))
+    sorted_after = z3.Implies(k > 0, b + 1 >= f)
+    inv_after = z3.Implies(z3.Or(rest_nonempty, k > 0), z3.And(b2 >= 1, f2 >= b2, f2 <= b2 + 1, b2 >= b))
+    s = z3.Solver()
+    s.add(inv, step, z3.Not(z3.And(sorted_after, inv_after)))
+    r = s.check()
+    return {"obligation": "BFS order, composition: FIFO discipline + successor depth d+1 + initial depth 1 keep the queue sorted over two consecutive depths, so jobs are taken in non-decreasing depth (inductive step over the abstract queue)", "result": str(r), **({"witness": str(s.model())} if r == z3.sat else {})}
